@@ -1,7 +1,7 @@
 /-
   C04 — the inferred schema accepts every encoded value.  Property theorems only
   (helper lemmas: JSV/Proofs/InfStore.lean, InfStruct.lean, InfEqns.lean, InfModels.lean, InfValid.lean,
-  InfSound.lean, InfNamed.lean, InfTable.lean, InfEmb*.lean; the model of encoding/json on the fragment is
+  InfSound.lean, InfNamed.lean, InfTable.lean, InfTableTree.lean, InfTableDeep.lean, InfEmb*.lean; the model of encoding/json on the fragment is
   JSV/Spec/EncJson.lean).
 
   Vocabulary:
@@ -13,7 +13,10 @@
     types (`EncJson.erase`); `EncJson.NamedOk opts strs [] T` : `forType` does so too (no type-table entry, no name
     twice along a path) — or the type is one of the marshaler types `strs` of the type table (`infer_sound_named`);
     `EncJson.EntriesAccept opts st false T` (JSV/Proofs/InfTable.lean): every entry of the type table that `forType`
-    meets in `T` accepts the encodings of its type (`infer_sound_table_partial`);
+    meets in `T` accepts the encodings of its type (`infer_sound_table_partial`: entries without subschemas);
+    `EncJson.EntriesAcceptTree opts st false T` (JSV/Proofs/InfTableTree.lean): the same for entries that are arbitrary
+    reference-free schema trees (`infer_sound_table`; `EntriesAcceptDeep … k`: … that may be `k` levels deeper than the
+    schema of the type itself, `infer_sound_table_deep`);
   * `Spec.specEnvNoRefs st re` : the Spec environment over the store, draft 2020-12, no references, any
     regexp matcher;
   * `EncJson.depth T` : the nesting depth of the schema, the fuel the Spec needs.
@@ -21,6 +24,10 @@
 import JSV.Proofs.InfSound
 import JSV.Proofs.InfNamed
 import JSV.Proofs.InfTable
+import JSV.Proofs.InfTableTree
+import JSV.Proofs.InfTableDeep
+import JSV.Proofs.ResIso4
+import JSV.Props.C20
 import JSV.Proofs.InfEmbSound
 import JSV.Proofs.InfEmbNamed
 import JSV.Proofs.EncEmbCons
@@ -208,10 +215,12 @@ theorem infer_sound_initial_table (opts : IOpts) (fuel : Nat) (T : GoType) (st :
     (`.named n (.basic "String")`), so this statement contains `infer_sound_named`'s marshaler types; with an empty
     table it is `infer_sound` for types with declared types (`entriesAccept_of_empty`).
 
-    Partial, what is missing: entries WITH subschemas or references (the ingredients are there: the clone validates like
-    the entry for reference-free trees, `C20.clone_validates_same_partial`; to be combined with invariance of validity
-    under the later growth of the store); an entry without a type keyword reached through a pointer (known finding D17:
-    its types become `["null"]`); an entry that rejects some encoding, of course (big.Int's, D13). -/
+    Partial, what is missing: entries WITH subschemas — now `infer_sound_table` / `infer_sound_table_deep` below, for
+    reference-free schema trees of any shape and depth — or references (`infer_sound_table_root_refs` at the root of
+    the inferred schema; below the root a `#`-rooted reference does not keep its meaning:
+    `table_entry_with_ref_unresolvable`, `table_entry_with_ref_changes_meaning`); an entry without a type keyword
+    reached through a pointer (known finding D17: its types become `["null"]`); an entry that rejects some encoding, of
+    course (big.Int's, D13). -/
 theorem infer_sound_table_partial (opts : IOpts) (fuel : Nat) (T : GoType) (st : Store) (id : NodeId) (st' : Store)
     (re : String → String → Bool) (hnfs : opts.nullForSlices = true) (hdom : InDomainN T = true)
     (hacc : EntriesAccept opts st false T) (h : forType opts fuel T st = .ok (some id, st')) (v : GoValue)
@@ -240,6 +249,148 @@ theorem string_entry_accepts (st : Store) (sid : NodeId) (h : st.get? sid = some
 theorem no_entries_nothing_assumed (opts : IOpts) (st : Store) (h : opts.schemas = []) (T : GoType) :
     EntriesAccept opts st false T :=
   (entriesAccept_of_empty opts st h).1 T false
+
+/-! ### entries of the type table that are schema trees -/
+
+/-- **main, with entries of the type table**.  A declared type with an entry in the type table (`ForOptions.TypeSchemas`,
+    the initial entries) gets a clone of the entry (`CloneSchemas`), with `null` added to the types of the clone's ROOT
+    where the type is reached through a pointer.  Let every entry that `ForType` meets in `T` be a reference-free schema
+    tree that accepts the encodings of its type (`EntriesAcceptTree`: for every declared type `.named n u` of `T` with an
+    entry `sid` — outside `json:"-"` fields — `EntryAcceptsTree st sid u an`:
+    * the entry is a full, finite, reference-free schema tree in the store that holds the table (`Go.treeAll Iso.noRefs`:
+      objects with `properties`, `items`, `prefixItems`, `allOf` / `anyOf` / `oneOf` / `not`, `if` / `then` / `else`,
+      `additionalProperties`, `patternProperties`, `contains`, `dependentSchemas`, `propertyNames`, `unevaluated*` … to
+      any depth; what `checkStructure` accepts, shared subschemas included; no `$ref` / `$dynamicRef`);
+    * it accepts `encode u v` for every value `v` of the type — Spec validity, with the fuel `depth u + 1` the schema of
+      `u` itself would need (deeper entries: `infer_sound_table_deep`);
+    * where the type is used through a pointer: its root has a type keyword (D17) and, with `null` added to the types of
+      its root, the entry accepts `null`).
+    Then the schema `ForType` returns accepts the JSON encoding of every value of `T`.  E.g. a type with a custom
+    `MarshalJSON` and the entry `{"type":"object","properties":{"lat":{"type":"number"},"lon":{"type":"number"}},
+    "required":["lat","lon"]}` (`point_entryAcceptsTree` below).
+    Declared types without an entry are expanded and need no hypothesis, as in `infer_sound_table_partial`, which is the
+    special case of entries without subschemas (`leaf_entries_are_tree_entries`).
+
+    Proof: the clone is a node-by-node copy of the entry (`Go.cloneFuel_sim`, C20) whose subschemas are allocated before
+    its root; validity is invariant under the renaming of node ids and blind to descriptions (`Iso.evalFuel_sim` along
+    `Iso.TSim`), so it survives the rewriting of the root (`null` added: only the `type` assertion changes,
+    `Iso.specBody_tableNull`), the later growth of the store and the descriptions the struct loop writes
+    (`Go.namedLeaf_table`).
+
+    Not covered: entries WITH `$ref` / `$dynamicRef` — at the root of the inferred schema they are fine
+    (`infer_sound_table_root_refs`, from C20), below the root they are not: after cloning into the inferred schema a
+    `#`-rooted reference is relative to the root of the INFERRED schema, not of the entry, so `Resolve` fails
+    (`table_entry_with_ref_unresolvable`) or the reference changes its meaning and an encoded value is rejected
+    (`table_entry_with_ref_changes_meaning`); the real package behaves the same —; an entry without a type keyword
+    reached through a pointer (D17); an entry that rejects some encoding (big.Int's, D13). -/
+theorem infer_sound_table (opts : IOpts) (fuel : Nat) (T : GoType) (st : Store) (id : NodeId) (st' : Store)
+    (re : String → String → Bool) (hnfs : opts.nullForSlices = true) (hdom : InDomainN T = true)
+    (hacc : EntriesAcceptTree opts st false T) (h : forType opts fuel T st = .ok (some id, st')) (v : GoValue)
+    (hv : HasType T v) (fuel' : Nat) (hf : depth T ≤ fuel') :
+    Spec.valid (specEnvNoRefs st' re) fuel' id (encode T v) = some true := by
+  obtain ⟨id', hid, hm⟩ := inferFuel_modelsTT opts hnfs st fuel T [] st (some id) st' (Ext.refl st) hdom hacc h
+  cases hid
+  rw [hnfs] at hm
+  exact valid_iff_isSome.1 ((Models.sound (re := re) T false id hm fuel' [] hf).2 v hv)
+
+/-- … and `ForType` never drops such a type -/
+theorem infer_some_table (opts : IOpts) (fuel : Nat) (T : GoType) (st : Store) (r : Option NodeId) (st' : Store)
+    (hnfs : opts.nullForSlices = true) (hdom : InDomainN T = true) (hacc : EntriesAcceptTree opts st false T)
+    (h : forType opts fuel T st = .ok (r, st')) : ∃ id, r = some id := by
+  obtain ⟨id, hid, _⟩ := inferFuel_modelsTT opts hnfs st fuel T [] st r st' (Ext.refl st) hdom hacc h
+  exact ⟨id, hid⟩
+
+/-- **main, with entries of the type table of any depth**: `infer_sound_table` asks the entries to accept the encodings
+    with the fuel `depth u + 1` that the schema of the type itself would need, i.e. not to be deeper than that schema.
+    In general (`EntriesAcceptDeep opts st k false T`: every entry met accepts the encodings of its type with fuel
+    `depth u + 1 + k`, otherwise as `EntryAcceptsTree`; `k = 0` is `EntriesAcceptTree`) the inferred schema accepts
+    every encoded value with fuel `depth T + k`: the entries may be `k` levels deeper.
+    Proof: `forType` never looks at the underlying type of a declared type that has an entry, so the type may be padded
+    with `k` transparent declarations there (`Go.inferFuel_pad`), which changes neither typing nor json.Marshal and adds
+    `k` to the depth; then `infer_sound_table`. -/
+theorem infer_sound_table_deep (opts : IOpts) (fuel : Nat) (T : GoType) (st : Store) (id : NodeId) (st' : Store)
+    (re : String → String → Bool) (hnfs : opts.nullForSlices = true) (hdom : InDomainN T = true) (k : Nat)
+    (hacc : EntriesAcceptDeep opts st k false T) (h : forType opts fuel T st = .ok (some id, st')) (v : GoValue)
+    (hv : HasType T v) (fuel' : Nat) (hf : depth T + k ≤ fuel') :
+    Spec.valid (specEnvNoRefs st' re) fuel' id (encode T v) = some true := by
+  have h' : forType opts fuel (padT opts k T) st = .ok (some id, st') := by
+    show inferFuel opts fuel (padT opts k T) [] st = _
+    rw [inferFuel_pad opts k fuel T [] st]
+    exact h
+  have := infer_sound_table opts fuel (padT opts k T) st id st' re hnfs (by rw [inDomainN_pad]; exact hdom)
+    ((entriesAcceptTree_pad opts st k).1 T false hacc) h' v ((hasType_pad opts k T v).2 hv) fuel'
+    (Nat.le_trans (depth_pad_le opts k T) hf)
+  rwa [encode_pad] at this
+
+/-- entries without subschemas and references — the hypothesis of `infer_sound_table_partial` — are tree entries -/
+theorem leaf_entries_are_tree_entries (opts : IOpts) (st : Store) (T : GoType) (an : Bool)
+    (h : EntriesAccept opts st an T) : EntriesAcceptTree opts st an T :=
+  (entriesAcceptTree_of_leaves opts st).1 T an h
+
+/-- … so `infer_sound_table_partial` is the special case of `infer_sound_table` for such entries -/
+example (opts : IOpts) (fuel : Nat) (T : GoType) (st : Store) (id : NodeId) (st' : Store)
+    (re : String → String → Bool) (hnfs : opts.nullForSlices = true) (hdom : InDomainN T = true)
+    (hacc : EntriesAccept opts st false T) (h : forType opts fuel T st = .ok (some id, st')) (v : GoValue)
+    (hv : HasType T v) (fuel' : Nat) (hf : depth T ≤ fuel') :
+    Spec.valid (specEnvNoRefs st' re) fuel' id (encode T v) = some true :=
+  infer_sound_table opts fuel T st id st' re hnfs hdom (leaf_entries_are_tree_entries opts st T false hacc) h v hv fuel' hf
+
+/-! ### an entry WITH references at the root of the inferred schema -/
+
+/-- **a declared type with an entry, at the ROOT** (`For[Point]()` where `TypeSchemas[Point]` is set; by value): the
+    inferred schema is `CloneSchemas` of the entry, so — C20 `clone_validates_same` — if `Resolve` of the entry returns
+    normally (self-contained: no Loader document), `Resolve` of the inferred schema, same options and base URI, returns
+    normally too, with the same draft, and every instance gets from it exactly the Spec result it gets from the entry:
+    whatever `$ref`, `$dynamicRef`, `$id`, `$anchor`, `$defs` the entry contains.  This is the one position where a
+    `#`-rooted reference of an entry keeps its meaning (`table_entry_with_ref_unresolvable`,
+    `table_entry_with_ref_changes_meaning` for the others). -/
+theorem infer_table_root_refs (opts : IOpts) (fuel : Nat) (n : String) (u : GoType) (sid : NodeId) (st : Store)
+    (r : Option NodeId) (st' : Store) (hl : Json.lookup n opts.schemas = some sid)
+    (env : Go.Env) (hnd : Go.RIso.NoDocs env)
+    (hroom : st.size + Go.cloneCount st (st.size + 1) sid ≤ 1000000000)
+    (rfuel : Nat) (base : String) (rs : Go.Resolved)
+    (hres : Go.resolve { env with st := st } rfuel sid base = .ok rs)
+    (h : forType opts (fuel + 1) (.named n u) st = .ok (r, st')) :
+    ∃ id rs', r = some id ∧ Go.resolve { env with st := st' } rfuel id base = .ok rs' ∧
+      rs.draft = rs'.draft ∧ rs.log = rs'.log ∧
+      ∀ (reMatch : String → String → Bool) (vfuel : Nat) (j : Json),
+        Spec.evalFuel (Go.RIso.specOf st' rs' reMatch) vfuel [] id j =
+          Spec.evalFuel (Go.RIso.specOf st rs reMatch) vfuel [] sid j := by
+  obtain ⟨c, st1, rs', hc, hr', e1, e2, e3⟩ := C20.clone_validates_same st sid env hnd hroom rfuel base rs hres
+  change inferStep opts (inferFuel opts fuel) (.named n u) [] st = _ at h
+  rw [inferStep_table (t := .named n u) rfl rfl rfl hl, hc, Res.bind_ok] at h
+  simp only at h
+  cases hcn : st1.get? c with
+  | none => rw [hcn] at h; cases h
+  | some cn =>
+    rw [hcn, Bool.and_false] at h
+    simp only at h
+    have : tableNull false cn = cn := rfl
+    rw [this, set!_get?_self hcn] at h
+    cases h
+    exact ⟨c, rs', rfl, hr', e1, e2, e3⟩
+
+/-- … hence soundness there: if the entry, resolved, accepts the encodings of the type, so does the inferred schema -/
+theorem infer_sound_table_root_refs (opts : IOpts) (fuel : Nat) (n : String) (u : GoType) (sid : NodeId) (st : Store)
+    (id : NodeId) (st' : Store) (hl : Json.lookup n opts.schemas = some sid)
+    (env : Go.Env) (hnd : Go.RIso.NoDocs env)
+    (hroom : st.size + Go.cloneCount st (st.size + 1) sid ≤ 1000000000)
+    (rfuel : Nat) (base : String) (rs : Go.Resolved)
+    (hres : Go.resolve { env with st := st } rfuel sid base = .ok rs)
+    (h : forType opts (fuel + 1) (.named n u) st = .ok (some id, st'))
+    (re : String → String → Bool) (vfuel : Nat)
+    (hacc : ∀ v, HasType u v → Spec.valid (Go.RIso.specOf st rs re) vfuel sid (encode u v) = some true) :
+    ∃ rs', Go.resolve { env with st := st' } rfuel id base = .ok rs' ∧
+      ∀ v, HasType (.named n u) v → Spec.valid (Go.RIso.specOf st' rs' re) vfuel id (encode (.named n u) v) = some true := by
+  obtain ⟨id', rs', hid, hr', -, -, e⟩ :=
+    infer_table_root_refs opts fuel n u sid st (some id) st' hl env hnd hroom rfuel base rs hres h
+  cases hid
+  refine ⟨rs', hr', fun v hv => ?_⟩
+  simp only [HasType] at hv
+  simp only [encode]
+  unfold Spec.valid
+  rw [e re vfuel (encode u v)]
+  exact hacc v hv
 
 /-! ### the hypotheses of `infer_sound_named` are satisfiable, and needed (labelled tests)
 
@@ -397,6 +548,316 @@ example : (match forType celsiusOpts 3 (.ptr (.named "Celsius" (.basic "Float64"
 example : (match forType celsiusOpts 3 (.ptr (.named "Celsius" (.basic "Float64"))) #[{}] with
     | .ok (some id, st') => [Spec.valid (specEnvNoRefs st') 1 id .null, Spec.valid (specEnvNoRefs st') 1 id (.num 20)]
     | _ => []) = [some true, some false] := by decide
+
+/-! ### the hypotheses of `infer_sound_table` are satisfiable, and needed (labelled tests) -/
+
+/-- the store of the caller: `TypeSchemas[Point]` is node 2,
+    `{"type":"object","properties":{"lat":{"type":"number"},"lon":{"type":"number"}},"required":["lat","lon"]}` -/
+def geoStore : Store := #[
+  { type := "number" },
+  { type := "number" },
+  { type := "object", properties := some [("lat", 0), ("lon", 1)], required := some ["lat", "lon"] }]
+
+/-- the root of the entry, and of its clones -/
+def geoNode (a b : NodeId) : Node :=
+  { type := "object", properties := some [("lat", a), ("lon", b)], required := some ["lat", "lon"] }
+
+/-- `CloneSchemas` of the entry, in any store that holds it -/
+theorem clone_geo {S : Store} (h0 : S.get? 0 = some { type := "number" }) (h1 : S.get? 1 = some { type := "number" })
+    (h2 : S.get? 2 = some (geoNode 0 1)) :
+    clone S 2 = .ok (S.size + 2, ((S.push { type := "number" }).push { type := "number" }).push (geoNode S.size (S.size + 1))) := by
+  have h1' : Store.get? (S.push { type := "number" }) 1 = some { type := "number" } := (Ext.push S _).get? h1
+  have e0 : cloneFuel (S.size + 1) 0 S = .ok (S.size, S.push { type := "number" }) :=
+    cloneStep_leaf h0 (leafSchema_typeOnly "number")
+  have e1 : cloneFuel (S.size + 1) 1 (S.push { type := "number" }) =
+      .ok ((S.push { type := "number" }).size, (S.push { type := "number" }).push { type := "number" }) :=
+    cloneStep_leaf h1' (leafSchema_typeOnly "number")
+  show cloneStep (cloneFuel (S.size + 1)) 2 S = _
+  unfold cloneStep
+  rw [h2]
+  simp only [geoNode, cloneMap, cloneEntries, cloneOpt, cloneList, e0, e1, Res.bind_ok, Store.alloc, Array.size_push]
+
+/-- `ForOptions{TypeSchemas: {Point: …}}` -/
+def geoOpts : IOpts := { schemas := [("Point", 2)] }
+/-- `type Point struct { Lat float64 "json:\"lat\""; Lon float64 "json:\"lon\"" }` — e.g. with a `MarshalJSON` of its own
+    that writes `{"lat":…,"lon":…}` — and
+    `type Trip struct { At Point "json:\"at\""; Track []Point "json:\"track\""; Home *Point "json:\"home\"" }` -/
+def geoU (tLat tLon : String) : GoType := .struct [("Lat", tLat, .basic "Float64"), ("Lon", tLon, .basic "Float64")]
+def geoT (tLat tLon : String) : GoType := .named "Point" (geoU tLat tLon)
+def tripT (tA tT tH tLat tLon : String) : GoType :=
+  .struct [("At", tA, geoT tLat tLon), ("Track", tT, .slice (geoT tLat tLon)), ("Home", tH, .ptr (geoT tLat tLon))]
+
+/-- `forType` on `Point` / `*Point`: the clone of the entry, `null` added for the pointer -/
+theorem inferFuel_geo (tLat tLon : String) (f : Nat) {T : GoType} {an : Bool} (hs : stripPtrs T = (geoT tLat tLon, an))
+    {seen : List String} (hseen : seen.contains "Point" = false) {S : Store} (hS : Ext geoStore S) :
+    ∃ fid S', inferFuel geoOpts (f + 1) T seen S = .ok (some fid, S') ∧ Ext geoStore S' := by
+  have h0 : S.get? 0 = some { type := "number" } := hS.get? (i := 0) rfl
+  have h1 : S.get? 1 = some { type := "number" } := hS.get? (i := 1) rfl
+  have h2 : S.get? 2 = some (geoNode 0 1) := hS.get? (i := 2) rfl
+  refine ⟨S.size + 2, ((S.push { type := "number" }).push { type := "number" }).push
+    (tableNull an (geoNode S.size (S.size + 1))), ?_,
+    hS.trans ((Ext.push _ _).trans ((Ext.push _ _).trans (Ext.push _ _)))⟩
+  show inferStep geoOpts (inferFuel geoOpts f) T seen S = _
+  rw [inferStep_table (t := geoT tLat tLon) hs rfl hseen rfl, clone_geo h0 h1 h2, Res.bind_ok]
+  have hsz : ((S.push { type := "number" }).push { type := "number" }).size = S.size + 2 := by
+    simp only [Array.size_push]
+  have hg := get?_push_size ((S.push { type := "number" }).push { type := "number" }) (geoNode S.size (S.size + 1))
+  have hset := set!_push_size ((S.push { type := "number" }).push { type := "number" }) (geoNode S.size (S.size + 1))
+      (tableNull an (geoNode S.size (S.size + 1)))
+  rw [hsz] at hg hset
+  simp only [hg]
+  rw [show (geoOpts.nullForSlices && an) = an from rfl, hset]
+
+/-- … on `[]Point` -/
+theorem inferFuel_geo_slice (tLat tLon : String) (f : Nat) {S : Store} (hS : Ext geoStore S) :
+    ∃ fid S', inferFuel geoOpts (f + 2) (.slice (geoT tLat tLon)) [] S = .ok (some fid, S') ∧ Ext geoStore S' := by
+  obtain ⟨fid, S', h, hS'⟩ := inferFuel_geo tLat tLon f (T := geoT tLat tLon) rfl (seen := []) rfl hS
+  refine ⟨S'.size, S'.push (addNull false (sliceNode geoOpts.nullForSlices fid)), ?_, hS'.trans (Ext.push _ _)⟩
+  show inferStep geoOpts (inferFuel geoOpts (f + 1)) (.slice (geoT tLat tLon)) [] S = _
+  rw [inferStep_slice rfl, h, Res.bind_ok]
+
+def geoRoot : Node := geoNode 0 1
+
+theorem plain_geoRoot (b : Bool) : Plain (tableNull b geoRoot) := by
+  cases b <;> exact ⟨rfl, rfl, rfl, rfl, rfl, rfl, rfl, rfl, rfl, rfl, rfl⟩
+
+theorem number_leaf_valid {st : Store} {re : String → String → Bool} {id : NodeId} (h : st.get? id = some { type := "number" })
+    (f : Nat) (sc : List NodeId) (q : Rat) : Valid (evalFuel (specEnvNoRefs st re) (f + 1) sc id (.num q)) := by
+  refine (leaf_valid_iff (HasNode.of_get h) (leafSchema_typeOnly "number") f sc _).2 ?_
+  by_cases hq : q.den = 1 <;>
+    simp [asserts, typeOk, typeMatches, Json.typeName, hq, enumOk, constOk, numericOk, stringOk, arrayLimitsOk, objectLimitsOk]
+
+theorem float64_value {v : GoValue} (h : basicHasType "Float64" v) : ∃ q, v = .float q := by
+  cases v with
+  | float q => exact ⟨q, rfl⟩
+  | int i => obtain ⟨lo, hi, hr, _⟩ := h; simp [intRange] at hr
+  | _ => simp [basicHasType] at h
+
+/-- **the entry accepts the encodings of `Point`**, by value and through a pointer: `EntryAcceptsTree` holds -/
+theorem geo_entryAcceptsTree (tLat tLon : String) (hLat : fieldJSONInfo "Lat" tLat = { name := "lat" })
+    (hLon : fieldJSONInfo "Lon" tLon = { name := "lon" }) (an : Bool) :
+    EntryAcceptsTree geoStore 2 (geoU tLat tLon) an := by
+  refine ⟨geoRoot, 2, rfl, by decide, fun re v hv => ?_, fun _ => ⟨Or.inl (by decide), fun re => ?_⟩⟩
+  · obtain ⟨q1, q2, rfl⟩ : ∃ q1 q2, v = .struct [.float q1, .float q2] := by
+      cases v with
+      | struct vs =>
+        simp only [geoU, HasType, HasTypeFields, hLat, hLon] at hv
+        rcases vs with _ | ⟨a, _ | ⟨b, vs⟩⟩
+        · exact hv.elim
+        · exact hv.2.elim
+        · simp only [Bool.false_eq_true, false_or] at hv
+          obtain ⟨q1, rfl⟩ := float64_value hv.1
+          obtain ⟨q2, rfl⟩ := float64_value hv.2.1
+          rw [hv.2.2]
+          exact ⟨q1, q2, rfl⟩
+      | _ => simp [geoU, HasType] at hv
+    have henc : encode (geoU tLat tLon) (.struct [.float q1, .float q2]) = .obj [("lat", .num q1), ("lon", .num q2)] := by
+      simp [geoU, encode, encodeFields, hLat, hLon, fieldSkipped]
+    rw [henc]
+    refine valid_iff_isSome.1 ((evalFuel_frag (HasNode.of_get (m := geoRoot) rfl) (plain_geoRoot false) _ [] _).2
+      ⟨⟨_, kwNot_none rfl _⟩, kwItems_none rfl rfl rfl _, ?_, ?_⟩)
+    · refine kwProps_obj_valid rfl fun p hp => ⟨fun t ht => ?_, fun hl t ht => ?_⟩
+      · simp only [List.mem_cons, List.not_mem_nil, or_false] at hp
+        rcases hp with rfl | rfl
+        · obtain rfl : t = 0 := by simpa [geoRoot, geoNode, Json.lookup] using ht.symm
+          exact number_leaf_valid rfl _ _ q1
+        · obtain rfl : t = 1 := by simpa [geoRoot, geoNode, Json.lookup] using ht.symm
+          exact number_leaf_valid rfl _ _ q2
+      · cases ht
+    · simp [asserts, typeOk, geoRoot, geoNode, typeMatches, Json.typeName, enumOk, constOk, numericOk, stringOk, arrayLimitsOk,
+        objectLimitsOk, specEnvNoRefs, Json.lookup]
+  · refine valid_iff_isSome.1 ((evalFuel_frag (st := geoStore.push (tableNull true geoRoot)) (HasNode.of_get (m := tableNull true geoRoot) rfl)
+      (plain_geoRoot true) _ [] _).2 ⟨⟨_, kwNot_none rfl _⟩, kwItems_none rfl rfl rfl _, ⟨_, kwProps_nonobj rfl⟩, ?_⟩)
+    simp [asserts, typeOk, geoRoot, geoNode, tableNull, typeMatches, Json.typeName, enumOk, constOk, numericOk, stringOk, arrayLimitsOk,
+        objectLimitsOk]
+
+/-- `ForType` succeeds on `Trip` (computed: three clones of the entry): `h` of `infer_sound_table` is satisfiable -/
+theorem trip_infers (tA tT tH tLat tLon : String)
+    (hA : fieldJSONInfo "At" tA = { name := "at" }) (hT : fieldJSONInfo "Track" tT = { name := "track" })
+    (hH : fieldJSONInfo "Home" tH = { name := "home" })
+    (dA : tagLookup "jsonschema" tA = none) (dT : tagLookup "jsonschema" tT = none)
+    (dH : tagLookup "jsonschema" tH = none) :
+    ∃ id st', forType geoOpts 3 (tripT tA tT tH tLat tLon) geoStore = .ok (some id, st') := by
+  show ∃ id st', inferStep geoOpts (inferFuel geoOpts 2) (tripT tA tT tH tLat tLon) [] geoStore = _
+  rw [inferStep_struct (fields := [("At", tA, geoT tLat tLon), ("Track", tT, .slice (geoT tLat tLon)), ("Home", tH, .ptr (geoT tLat tLon))]) (an := false) rfl]
+  obtain ⟨f1, S2, e1, i2⟩ := inferFuel_geo tLat tLon 1 (T := geoT tLat tLon) rfl (seen := []) rfl
+    (S := (geoStore.push emptyNode).push (falseNode geoStore.size)) ((Ext.push _ _).trans (Ext.push _ _))
+  rw [structLoop_step (by rw [hA]) dA e1]
+  obtain ⟨f2, S3, e2, i3⟩ := inferFuel_geo_slice tLat tLon 0 i2
+  rw [structLoop_step (by rw [hT]) dT e2]
+  obtain ⟨f3, S4, e3, i4⟩ := inferFuel_geo tLat tLon 1 (T := .ptr (geoT tLat tLon)) rfl (seen := []) rfl i3
+  rw [structLoop_step (by rw [hH]) dH e3]
+  simp only [structLoop, Res.bind_ok]
+  exact ⟨_, _, rfl⟩
+
+/-- the three uses of `Point` in `Trip`: by value, in a slice, through a pointer -/
+theorem trip_entriesAcceptTree (tA tT tH tLat tLon : String) (hLat : fieldJSONInfo "Lat" tLat = { name := "lat" })
+    (hLon : fieldJSONInfo "Lon" tLon = { name := "lon" }) :
+    EntriesAcceptTree geoOpts geoStore false (tripT tA tT tH tLat tLon) := by
+  simp only [tripT, geoT, EntriesAcceptTree, EntriesAcceptTreeFields, geoOpts, Json.lookup]
+  exact ⟨Or.inr (geo_entryAcceptsTree tLat tLon hLat hLon false), Or.inr (geo_entryAcceptsTree tLat tLon hLat hLon false),
+    Or.inr (geo_entryAcceptsTree tLat tLon hLat hLon true), trivial⟩
+
+section WitnessesT
+variable (tA tT tH tLat tLon : String)
+  (hA : fieldJSONInfo "At" tA = { name := "at" }) (hT : fieldJSONInfo "Track" tT = { name := "track" })
+  (hH : fieldJSONInfo "Home" tH = { name := "home" })
+  (hLat : fieldJSONInfo "Lat" tLat = { name := "lat" }) (hLon : fieldJSONInfo "Lon" tLon = { name := "lon" })
+include hA hT hH hLat hLon
+
+theorem trip_inDomainN : InDomainN (tripT tA tT tH tLat tLon) = true := by
+  have v1 : validTagName "at" = true := by decide
+  have v2 : validTagName "track" = true := by decide
+  have v3 : validTagName "home" = true := by decide
+  have v4 : validTagName "lat" = true := by decide
+  have v5 : validTagName "lon" = true := by decide
+  have d1 : "Float64" ∈ domainKinds := by decide
+  simp [tripT, geoT, geoU, InDomainN, inDomainFieldsN, jsonNames, nodup, fieldTagOk, hA, hT, hH, hLat, hLon, v1, v2, v3, v4,
+    v5, d1]
+
+/-- the value `Trip{At: Point{1.5, 2}, Track: []Point{{3, 4}}, Home: nil}` -/
+theorem trip_hasType : HasType (tripT tA tT tH tLat tLon)
+    (.struct [.struct [.float (3/2), .float 2], .slice [.struct [.float 3, .float 4]], .nilPtr]) := by
+  simp [tripT, geoT, geoU, HasType, HasTypeFields, hA, hT, hH, hLat, hLon, basicHasType, floatKinds]
+
+/-- `infer_sound_table` applied: the value marshals to
+    `{"at":{"lat":1.5,"lon":2},"track":[{"lat":3,"lon":4}],"home":null}`, which the inferred schema accepts -/
+example (id : NodeId) (st' : Store) (h : forType geoOpts 3 (tripT tA tT tH tLat tLon) geoStore = .ok (some id, st')) :
+    Spec.valid (specEnvNoRefs st') 5 id
+      (.obj [("at", .obj [("lat", .num (3/2)), ("lon", .num 2)]), ("track", .arr [.obj [("lat", .num 3), ("lon", .num 4)]]),
+             ("home", .null)]) = some true := by
+  have := infer_sound_table geoOpts 3 _ geoStore id st' (fun _ _ => false) rfl
+    (trip_inDomainN tA tT tH tLat tLon hA hT hH hLat hLon) (trip_entriesAcceptTree tA tT tH tLat tLon hLat hLon) h _
+    (trip_hasType tA tT tH tLat tLon hA hT hH hLat hLon) 5 (by simp [tripT, geoT, geoU, depth, depthFields])
+  simpa [tripT, geoT, geoU, encode, encodeFields, hA, hT, hH, hLat, hLon, fieldSkipped] using this
+end WitnessesT
+
+/-- … evaluated, on `Point` and `*Point` alone (no tag is read): the clone accepts `{"lat":1.5,"lon":2}`, rejects
+    `{"lat":1.5}` (required) and `{"lat":"x","lon":2}` (the subschema of `lat`), and accepts `null` through the pointer only -/
+example : (match forType geoOpts 2 (.named "Point" (.basic "Bool")) geoStore,
+                 forType geoOpts 2 (.ptr (.named "Point" (.basic "Bool"))) geoStore with
+    | .ok (some id, st'), .ok (some idp, stp) =>
+      [Spec.valid (specEnvNoRefs st') 2 id (.obj [("lat", .num (3/2)), ("lon", .num 2)]),
+       Spec.valid (specEnvNoRefs st') 2 id (.obj [("lat", .num (3/2))]),
+       Spec.valid (specEnvNoRefs st') 2 id (.obj [("lat", .str "x"), ("lon", .num 2)]),
+       Spec.valid (specEnvNoRefs st') 2 id .null,
+       Spec.valid (specEnvNoRefs stp) 2 idp .null,
+       Spec.valid (specEnvNoRefs stp) 2 idp (.obj [("lat", .num (3/2)), ("lon", .num 2)])]
+    | _, _ => []) = [some true, some false, some false, some false, some true, some true] := by decide +kernel
+
+/-- the hypothesis on the entry is needed: with `"lat": {"type":"integer"}` in the entry (`TypeSchemas[Point]` written for
+    another `Point`), the inferred schema rejects the encoding `{"lat":1.5,"lon":2}` of `Point{1.5, 2}` -/
+example : (match forType geoOpts 2 (.named "Point" (.basic "Bool"))
+      #[{ type := "integer" }, { type := "number" }, geoNode 0 1] with
+    | .ok (some id, st') => Spec.valid (specEnvNoRefs st') 2 id (.obj [("lat", .num (3/2)), ("lon", .num 2)])
+    | _ => none) = some false := by decide +kernel
+
+/-- … and so is the clause on `null` for pointers, beyond the type keyword at the root (D17): the entry
+    `{"type":"object","allOf":[{"type":"object"}]}` has a type keyword, but with `null` added to the types of its root
+    it still rejects `null` — the `allOf` branch does — so the schema inferred for `*Point` rejects the nil pointer -/
+example : (match forType { schemas := [("Point", 1)] } 2 (.ptr (.named "Point" (.basic "Bool")))
+      #[{ type := "object" }, { type := "object", allOf := some [0] }] with
+    | .ok (some id, st') => [Spec.valid (specEnvNoRefs st') 2 id .null, Spec.valid (specEnvNoRefs st') 2 id (.obj [])]
+    | _ => []) = [some false, some true] := by decide +kernel
+
+/-! ### … of `infer_sound_table_deep` (labelled tests) -/
+
+/-- `TypeSchemas[Celsius] = {"type":"number","allOf":[{"anyOf":[{"type":"number"},{"type":"string"}]}]}` (node 3): three
+    levels, one more than the schema `{"type":"number"}` of `float64` under a declared type -/
+def deepStore : Store := #[
+  { type := "number" },
+  { type := "string" },
+  { anyOf := some [0, 1] },
+  { type := "number", allOf := some [2] }]
+
+def deepOpts : IOpts := { schemas := [("Celsius", 3)] }
+
+theorem deep_num_valid (re : String → String → Bool) (q : Rat) :
+    Spec.valid (specEnvNoRefs deepStore re) 3 3 (.num q) = some true := by
+  by_cases hq : q.den = 1 <;>
+  simp [Spec.valid, evalFuel, evalStep, specEnvNoRefs, Store.get?, deepStore, kwRef, inPlace, kwDynamicRef, kwAllOf, kwAnyOf,
+    kwOneOf, kwNot, kwIf, kwItems, kwContains, kwProps, kwPropertyNames, kwDependentSchemas,
+    kwUnevaluatedItems, kwUnevaluatedProps, sequence, conj, typeOk, typeMatches, Json.typeName, hq, enumOk, constOk,
+    numericOk, stringOk, arrayLimitsOk, objectLimitsOk, validCount, validUnion, Ev.unions, Ev.union]
+
+/-- the entry accepts the encodings of `Celsius` with one level of extra depth (by value) … -/
+theorem deep_entryAccepts : EntryAcceptsDeep deepStore 3 (.basic "Float64") false 1 := by
+  refine ⟨_, 3, rfl, by decide, fun re v hv => ?_, fun h => nomatch h⟩
+  obtain ⟨q, rfl⟩ := float64_value hv
+  exact deep_num_valid re q
+
+/-- … but not with the fuel of `infer_sound_table`: two levels of fuel do not reach the leaves -/
+example : Spec.valid (specEnvNoRefs deepStore) 2 3 (.num 20) = none := by decide
+
+/-- `infer_sound_table_deep` applied to `[]Celsius`: `[20, 21.5]` is accepted, with fuel `depth T + 1` -/
+example (id : NodeId) (st' : Store)
+    (h : forType deepOpts 3 (.slice (.named "Celsius" (.basic "Float64"))) deepStore = .ok (some id, st')) :
+    Spec.valid (specEnvNoRefs st') 4 id (.arr [.num 20, .num (43/2)]) = some true := by
+  have := infer_sound_table_deep deepOpts 3 (.slice (.named "Celsius" (.basic "Float64"))) deepStore id st' (fun _ _ => false)
+    rfl (by decide) 1 (by simpa [EntriesAcceptDeep, deepOpts, Json.lookup] using deep_entryAccepts) h
+    (.slice [.float 20, .float (43/2)]) (by simp [HasType, basicHasType, floatKinds]) 4 (by decide)
+  simpa [encode] using this
+
+/-- … and evaluated -/
+example : (match forType deepOpts 3 (.slice (.named "Celsius" (.basic "Float64"))) deepStore with
+    | .ok (some id, st') => [Spec.valid (specEnvNoRefs st') 4 id (.arr [.num 20, .num (43/2)]),
+        Spec.valid (specEnvNoRefs st') 3 id (.arr [.num 20]), Spec.valid (specEnvNoRefs st') 4 id (.arr [.bool true])]
+    | _ => []) = [some true, none, some false] := by decide +kernel
+
+/-! ### entries WITH references (labelled tests): after cloning, a `#`-rooted reference is relative to the inferred root -/
+
+/-- `TypeSchemas[Point] = {"$defs":{"coord":{"type":"number"}},"type":"object","properties":{"lat":{"$ref":"#/$defs/coord"},
+    "lon":{"$ref":"#/$defs/coord"}},"required":["lat","lon"]}` (node 3) -/
+def refStore : Store := #[
+  { type := "number" },
+  { ref := "#/$defs/coord" },
+  { ref := "#/$defs/coord" },
+  { type := "object", defs := some [("coord", 0)], properties := some [("lat", 1), ("lon", 2)], required := some ["lat", "lon"] }]
+
+/-- `Resolve` (no Loader, empty base URI) and then validate: the verdict of the Spec over the tables `Resolve` computes -/
+def resolvedValid (st : Store) (root : NodeId) (j : Json) : Res (Option Bool) :=
+  (Go.resolve { st := st, reOk := fun _ => true, loader := none } 4 root "").bind fun rs =>
+    .ok (Spec.valid (Go.RIso.specOf st rs fun _ _ => false) 6 root j)
+
+/-- the entry on its own resolves and accepts `{"lat":1.5,"lon":2}` -/
+example : resolvedValid refStore 3 (.obj [("lat", .num (3/2)), ("lon", .num 2)]) = .ok (some true) := by decide +kernel
+
+/-- at the ROOT of the inferred schema (`For[Point]`) the clone resolves like the entry (`infer_table_root_refs`) -/
+example : (match forType { schemas := [("Point", 3)] } 2 (.named "Point" (.basic "Bool")) refStore with
+    | .ok (some id, st') => resolvedValid st' id (.obj [("lat", .num (3/2)), ("lon", .num 2)])
+    | _ => .panic) = .ok (some true) := by decide +kernel
+
+/-- **`table_entry_with_ref_unresolvable`**: below the root (`For[[]Point]`; the same for a struct field of type `Point`)
+    the pointer `#/$defs/coord` is evaluated from the root of the INFERRED schema, `{"type":["null","array"],"items":…}`,
+    which has no `$defs`: `Resolve` of the schema `ForType` returned fails (the real package: `JSON Pointer
+    "/$defs/coord": no key "coord" in map`), so no instance is accepted -/
+theorem table_entry_with_ref_unresolvable : (match forType { schemas := [("Point", 3)] } 3 (.slice (.named "Point" (.basic "Bool"))) refStore with
+    | .ok (some id, st') => resolvedValid st' id (.arr [.obj [("lat", .num (3/2)), ("lon", .num 2)]])
+    | _ => .panic) = .err := by decide +kernel
+
+/-- `type Tree struct { Children []Tree "json:\"children\"" }` with the recursive entry
+    `TypeSchemas[Tree] = {"type":"object","properties":{"children":{"type":["null","array"],"items":{"$ref":"#"}}},
+    "required":["children"]}` (node 2) -/
+def hashStore : Store := #[
+  { ref := "#" },
+  { types := some ["null", "array"], items := some 0 },
+  { type := "object", properties := some [("children", 1)], required := some ["children"] }]
+
+/-- the entry on its own accepts the encoding `{"children":[{"children":null}]}` of `Tree{Children: []Tree{{}}}` -/
+example : resolvedValid hashStore 2 (.obj [("children", .arr [.obj [("children", .null)]])]) = .ok (some true) := by decide +kernel
+
+/-- **`table_entry_with_ref_changes_meaning`**: in the schema inferred for `[]Tree`, `{"type":["null","array"],"items":
+    <clone>}`, the reference `#` of the clone designates the ARRAY schema, not the clone: the encoding
+    `[{"children":[{"children":null}]}]` of `[]Tree{{Children: []Tree{{}}}}` is rejected (the inner tree is not an
+    array), while `[{"children":[[]]}]`, which no value of the type encodes to, is accepted.  The real package does the
+    same (also for `struct{ Root Tree }`: `unexpected additional properties ["children"]`).  So the hypothesis
+    "reference-free" of `infer_sound_table` is needed for entries below the root. -/
+theorem table_entry_with_ref_changes_meaning : (match forType { schemas := [("Tree", 2)] } 3 (.slice (.named "Tree" (.basic "Bool"))) hashStore with
+    | .ok (some id, st') =>
+      [resolvedValid st' id (.arr [.obj [("children", .null)]]),
+       resolvedValid st' id (.arr [.obj [("children", .arr [.obj [("children", .null)]])]]),
+       resolvedValid st' id (.arr [.obj [("children", .arr [.arr []])]])]
+    | _ => []) = [.ok (some true), .ok (some false), .ok (some true)] := by decide +kernel
 
 /-- `NamedOk` is needed, (1): a name that occurs twice along ONE path — how a recursive declaration looks in the type
     language — makes `forType` fail (the cycle check, `C16.recursive_*_errors`), although the erased type has a schema -/
